@@ -94,6 +94,9 @@ pub enum Expr {
     MkGen(usize, usize, Box<Expr>),
     /// field v of a generic struct value
     GenField(Box<Expr>),
+    /// <pkg>::zz_nap(e): a library function built on `extern "go"` declarations (sleeps e ns on
+    /// the simulated clock, returns e) — extern funcs/types must survive the artifact boundary
+    Nap(usize, Box<Expr>),
     /// float64_to_string(<literal>): a float constant that has to survive the JSON round trip
     /// of the Core IR bit for bit
     FloatStr(String),
@@ -112,6 +115,8 @@ pub struct Pkg {
     pub fns: Vec<FnDef>,
     /// generic structs `struct <name>[T] { v: T }`
     pub generics: Vec<String>,
+    /// this package declares `extern "go" "time"` items and a helper zz_nap built on them
+    pub externs: bool,
     /// extra raw text appended to the first file (used by error/layout variants)
     pub raw: String,
     /// extra raw text appended to the last file
@@ -292,6 +297,14 @@ fn gen_expr(p: &mut Prng, sc: &Scope, cur: &Pkg, want: &Ty, depth: u32) -> Expr 
                             let (ip, ii, st) = *p.pick(&cands);
                             let recv = gen_expr(p, sc, cur, &Ty::Struct(ip, st), depth - 1);
                             return Expr::Inherent(ip, ii, Box::new(recv));
+                        }
+                    }
+                    9 => {
+                        let naps: Vec<usize> = vis.iter().copied().filter(|vp| pkg_of(*vp).externs).collect();
+                        if !naps.is_empty() {
+                            let np = *p.pick(&naps);
+                            let a = gen_expr(p, sc, cur, &Ty::Int, depth - 1);
+                            return Expr::Nap(np, Box::new(a));
                         }
                     }
                     10 => {
@@ -586,6 +599,7 @@ pub fn generate(p: &mut Prng, cfg: &GenCfg) -> Project {
                     name: en,
                 });
             }
+            cur.externs = pi != 0 && cfg.generics && p.chance(1, 3);
             if cfg.generics {
                 let ng = p.usize(2);
                 for i in 0..ng {
@@ -919,6 +933,7 @@ impl Project {
             Expr::BoundVar => "BOUND".to_string(),
             Expr::ToString(a) => format!("({}).to_string()", self.expr_str(from, a)),
             Expr::FloatStr(lit) => format!("float64_to_string({lit})"),
+            Expr::Nap(p, a) => format!("{}({})", self.q(from, *p, "zz_nap"), self.expr_str(from, a)),
             Expr::MkClosure(b) => format!("(|q: int32| (q + {}))", self.expr_str(from, b)),
             Expr::Apply(f, a) => match **f {
                 Expr::Var(_) => format!("{}({})", self.expr_str(from, f), self.expr_str(from, a)),
@@ -1003,6 +1018,9 @@ impl Project {
         for g in &pk.generics {
             items.push(format!("struct {g}[T] {{\n    v: T,\n}}\n"));
         }
+        if pk.externs {
+            items.push("extern type Duration\n\nextern \"go\" \"time\" sleep(d: Duration) -> unit\nextern \"go\" \"time\" duration(nanos: int32) -> Duration\n\nfn zz_nap(n: int32) -> int32 {\n    sleep(duration(n));\n    n\n}\n".to_string());
+        }
         for t in &pk.traits {
             let ms: Vec<String> = t
                 .methods
@@ -1073,11 +1091,17 @@ impl Project {
     pub fn render_pkg(&self, pi: usize) -> Files {
         let pk = &self.pkgs[pi];
         let files = self.pkg_files(pi);
+        let nf = files.len();
         let mut texts: Vec<String> = files
             .iter()
-            .map(|_| {
+            .enumerate()
+            .map(|(fi, _)| {
                 let mut h = format!("package {}\n", pk.name);
                 for &i in &pk.imports {
+                    // a package's imports are the union over its files: every import is declared
+                    // in at least one file, not necessarily the first
+                    // (imports are checked per file in goml, so every file declares all of them)
+                    let _ = (fi, nf);
                     h.push_str(&format!("import {}\n", self.pkgs[i].name));
                 }
                 for e in &pk.extra_imports {
@@ -1130,6 +1154,9 @@ impl Project {
         }
         for g in &pk.generics {
             s.push_str(&format!("generic struct {g}\n"));
+        }
+        if pk.externs {
+            s.push_str("externs Duration sleep duration zz_nap\n");
         }
         for t in &pk.traits {
             s.push_str(&format!("trait {} {:?}\n", t.name, t.methods));
@@ -1281,6 +1308,7 @@ impl Project {
             }
             Expr::BoundVar => return None,
             Expr::FloatStr(_) => return None,
+            Expr::Nap(_, a) => self.eval(a, env, fuel)?,
             Expr::MkClosure(b) => Val::Clo(env.clone(), b.clone()),
             Expr::Apply(f, a) | Expr::LetApply(f, a, _) => {
                 let fv = self.eval(f, env, fuel)?;
@@ -1364,7 +1392,7 @@ fn expr_uses_tostring(proj: &Project, e: &Expr, depth: u32) -> bool {
                 })
         }
         Expr::Inherent(p, ii, r) => rec(r) || rec(&proj.pkgs[*p].inherents[*ii].body),
-        Expr::MkClosure(b) | Expr::GenField(b) | Expr::MkGen(_, _, b) => rec(b),
+        Expr::MkClosure(b) | Expr::GenField(b) | Expr::MkGen(_, _, b) | Expr::Nap(_, b) => rec(b),
         Expr::Apply(f, a) | Expr::LetApply(f, a, _) => rec(f) || rec(a),
     }
 }
@@ -1467,7 +1495,7 @@ fn map_expr(e: &mut Expr, f: &mut dyn FnMut(&mut Expr)) {
             map_expr(d, f);
         }
         Expr::TraitCall(_, _, r, _) | Expr::Inherent(_, _, r) => map_expr(r, f),
-        Expr::MkClosure(b) | Expr::GenField(b) | Expr::MkGen(_, _, b) => map_expr(b, f),
+        Expr::MkClosure(b) | Expr::GenField(b) | Expr::MkGen(_, _, b) | Expr::Nap(_, b) => map_expr(b, f),
         Expr::Apply(g, a) | Expr::LetApply(g, a, _) => {
             map_expr(g, f);
             map_expr(a, f);
